@@ -109,6 +109,24 @@ theorem leval_step {fuel : Nat} (hE : LEval fs fuel) (hC : LCall fs fuel) : LEva
   | fld c f =>
     simp only [evalX]
     split
+    · split <;> rfl
+    · rfl
+    · split
+      · split <;> rfl
+      · split <;> rfl
+  | idx a i =>
+    simp only [evalX]
+    split
+    · have h := hE ctl σ i
+      rcases hA : evalX fs fuel ctl σ i with ⟨σ1, r1⟩
+      rw [hA] at h
+      cases r1 with
+      | error s => exact h
+      | ok iv =>
+        simp only
+        split
+        · exact h
+        · split <;> exact h
     · rfl
     · split <;> rfl
   | call f args =>
@@ -369,6 +387,41 @@ theorem lstmt_step {fuel : Nat} (hE : LEval fs fuel) (hK : LBlock fs fuel) (hL :
     split
     · split <;> rfl
     · exact hFb ctl σ c _ args
+  | assignIdx a i e =>
+    simp only [execXStmt]
+    have h1 := hE ctl σ e
+    rcases hA : evalX fs fuel ctl σ e with ⟨σ1, r1⟩
+    rw [hA] at h1
+    cases r1 with
+    | error st => exact h1
+    | ok v =>
+      simp only
+      split
+      · have h2 := hE ctl σ1 i
+        rcases hB : evalX fs fuel ctl σ1 i with ⟨σ2, r2⟩
+        rw [hB] at h2
+        cases r2 with
+        | error st => exact h2.trans h1
+        | ok iv =>
+          simp only
+          split
+          · exact h2.trans h1
+          · exact h2.trans h1
+      · exact h1
+      · split <;> exact h1
+  | assignFld s f e =>
+    simp only [execXStmt]
+    have h1 := hE ctl σ e
+    rcases hA : evalX fs fuel ctl σ e with ⟨σ1, r1⟩
+    rw [hA] at h1
+    cases r1 with
+    | error st => exact h1
+    | ok v =>
+      simp only
+      split
+      · split <;> exact h1
+      · exact h1
+      · split <;> exact h1
   | ite c t elifs el =>
     simp only [execXStmt]
     have h1 := hE ctl σ c
